@@ -24,8 +24,8 @@ import traceback
 ROOT = os.path.dirname(os.path.dirname(os.path.abspath(__file__)))
 LEAN = os.environ.get("PV_LEAN_DIR") or os.path.join(ROOT, "lean")
 REPO = os.environ.get("PV_REPO", "/repo")
-EVIDENCE_DIR = os.path.join(ROOT, "evidence")
-REPLAY_DIR = os.path.join(ROOT, "replays")
+EVIDENCE_DIR = os.environ.get("PV_EVIDENCE_DIR") or os.path.join(ROOT, "evidence")  # override: mutation trials only
+REPLAY_DIR = os.environ.get("PV_REPLAY_DIR") or os.path.join(ROOT, "replays")
 CORPUS_DIR = os.path.join(ROOT, "corpus")
 KNOWN_FILE = os.path.join(ROOT, "known_findings.json")
 DRIVER = os.path.join(LEAN, ".lake", "build", "bin", "pvdriver")
@@ -202,10 +202,12 @@ def forbidden_tokens(modules):
 def audit_axioms(module, names, timeout=900):
     """#print axioms for each theorem; returns dict name -> set(axioms) or None when it failed."""
     if not names:
-        return {}
-    tmp = os.path.join(LEAN, ".lake", "audit_%s_%d.lean" % (module.replace(".", "_"), os.getpid()))
+        return {}, ""
+    modules = [module] if isinstance(module, str) else list(module)
+    tmp = os.path.join(LEAN, ".lake", "audit_%s_%d.lean" % (modules[0].replace(".", "_"), os.getpid()))
     with open(tmp, "w") as f:
-        f.write("import %s\n" % module)
+        for m in modules:
+            f.write("import %s\n" % m)
         for n in names:
             f.write("#print axioms %s\n" % n)
     try:
